@@ -10,6 +10,13 @@ case kinds
   wl  : the real Worker.workloop run in-process over a scripted request list, with an outq
         whose put really pickles (so unserialisable results fail by themselves) and can be
         scripted to raise
+  ns  : like rt, but the live frames are observed WITH their namespaces (dunder keys of f_globals,
+        __traceback_hide__ of f_locals) and so are the stand-in frames of the record
+  slots : dir() of a real frame / code / traceback object
+
+The call chains (pat) run over FUNCS: 0-3 ordinary module-level functions, 4.. frames of code run
+by exec/eval in fresh or odd globals, lambdas, generator expressions, generators, class bodies,
+frames under C-level callers (sorted(key=), map), frames hiding themselves, chained exceptions.
 
 Values are JSON-encoded: {"i":n} {"s":str} {"n":0} {"b":bool} {"t":[..]} {"l":[..]}
 {"u":k} (object whose pickling raises) and, for observations only, {"o":repr}.
@@ -156,6 +163,101 @@ def f3(p, i, exc):
 
 FUNCS = [f0, f1, f2, f3]
 
+# ---- frames that are not ordinary module-level functions of an imported module ----
+# Code run by exec()/eval() in a caller-supplied globals dict: the interpreter adds __builtins__
+# and nothing else, so __name__ / __file__ / __loader__ are missing unless the caller put them there.
+_STEP_SRC = (
+    "def step(p, i, exc):\n"
+    "    if i >= len(p):\n"
+    "        raise exc\n"
+    "    return FUNCS[p[i]](p, i + 1, exc)\n")
+
+
+def _exec_step(globs, filename, src=_STEP_SRC):
+    globs['FUNCS'] = FUNCS
+    exec(compile(src, filename, 'exec'), globs)
+    return globs['step']
+
+
+f4 = _exec_step({}, '<generated>')                                  # no __name__, no __file__
+f5 = _exec_step({'__name__': 'gen.mod'}, '<template>')             # __name__ only
+f6 = _exec_step({'__file__': '/srv/app/rules.py'}, '/srv/app/rules.py')      # __file__ only
+f7 = _exec_step({'__name__': None, '__file__': None, '__loader__': 'not a loader',
+                 '__spec__': None}, 'odd name.py')                  # present, but None / odd
+f8 = _exec_step({'__name__': 7, '__file__': ('a', 1)}, '<odd>')    # present, not strings
+# a lambda made by eval() in fresh globals; at the bottom it raises from a generator expression
+f9 = eval(compile("lambda p, i, exc: FUNCS[p[i]](p, i + 1, exc) if i < len(p) "
+                  "else (_ for _ in ()).throw(exc)", '<lambda-src>', 'eval'), {'FUNCS': FUNCS})
+
+
+def _gen(p, i, exc):
+    if i >= len(p):
+        raise exc
+    yield FUNCS[p[i]](p, i + 1, exc)
+
+
+def f10(p, i, exc):                    # a generator's frame
+    return next(_gen(p, i, exc))
+
+
+def f11(p, i, exc):                    # a class body's frame (f_locals is the class namespace)
+    class Body:
+        if i >= len(p):
+            raise exc
+        v = FUNCS[p[i]](p, i + 1, exc)
+    return Body.v
+
+
+def f12(p, i, exc):                    # under a C-level caller: sorted(key=...)
+    def key(_):
+        if i >= len(p):
+            raise exc
+        return FUNCS[p[i]](p, i + 1, exc)
+    return sorted([0], key=key)[0]
+
+
+def f13(p, i, exc):                    # under a C-level caller: map + a lambda
+    if i >= len(p):
+        raise exc
+    return list(map(lambda q: FUNCS[p[q]](p, q + 1, exc), [i]))[0]
+
+
+def f14(p, i, exc):                    # a frame that asks to be hidden (copied into the stand-in)
+    __traceback_hide__ = True          # noqa
+    if i >= len(p):
+        raise exc
+    return FUNCS[p[i]](p, i + 1, exc)
+
+
+def f15(p, i, exc):                    # explicit chaining: raise ... from
+    if i >= len(p):
+        try:
+            {}['inner']
+        except KeyError as inner:
+            raise exc from inner
+    return FUNCS[p[i]](p, i + 1, exc)
+
+
+def f16(p, i, exc):                    # implicit chaining: raised while handling another exception
+    try:
+        [].pop()
+    except IndexError:
+        if i >= len(p):
+            raise exc
+        return FUNCS[p[i]](p, i + 1, exc)
+
+
+def f17(p, i, exc):                    # module-level code (co_name <module>) run by exec in fresh globals
+    g = {'FUNCS': FUNCS, 'p': p, 'i': i, 'exc': exc}
+    exec(_MODULE_CODE, g)
+    return g['r']
+
+
+_MODULE_CODE = compile("if i >= len(p):\n    raise exc\nr = FUNCS[p[i]](p, i + 1, exc)\n",
+                       '<string>', 'exec')
+
+FUNCS += [f4, f5, f6, f7, f8, f9, f10, f11, f12, f13, f14, f15, f16, f17]
+
 
 def inf(n):
     return inf(n + 1)
@@ -290,11 +392,19 @@ def run_rt(c):
         live_exc = exc_desc(ei[1])
         only = ''.join(traceback.format_exception_only(ei[0], ei[1]))
         live_text = T.t(''.join(traceback.format_exception(*ei)))
-        e = ExceptionInfo()
+        build_error = None
+        try:
+            e = ExceptionInfo()
+        except BaseException as exc:      # noqa -- building the record must never raise
+            build_error = '%s: %s' % (type(exc).__name__, exc)
         del ei
     out = dict(reclimit=RECLIMIT_AT_IMPORT, dmf=einfo_mod.DEFAULT_MAX_FRAMES,
                live=rle_of(live, T), live_len=len(live), live_exc=live_exc, live_text=live_text,
                views=[], error=None)
+    if build_error:
+        out['build_error'] = build_error
+        out['strs'] = T.strs
+        return out
     out['text_names_raiser'] = names_raiser(e.traceback, live) and e.traceback.endswith(only)
     try:
         out['views'].append(view(e, T))
@@ -315,9 +425,17 @@ def run_tb(c):
     except ValueError:
         tb = sys.exc_info()[2]
         live = frames_of(tb)
-        t = Traceback(tb, max_frames=c['m'])
+        build_error = None
+        try:
+            t = Traceback(tb, max_frames=c['m'])
+        except BaseException as exc:      # noqa
+            build_error = '%s: %s' % (type(exc).__name__, exc)
         del tb
     out = dict(live=rle_of(live, T), live_len=len(live), chains=[], error=None, fmt=None)
+    if build_error:
+        out['build_error'] = build_error
+        out['strs'] = T.strs
+        return out
     try:
         out['chains'].append(rle_of(frames_of(t), T))
         for r in range(c['rounds']):
@@ -340,6 +458,97 @@ def run_mee(c):
     m = MaybeEncodingError(dec(c['a']), dec(c['b']))
     d = exc_desc(m)
     return dict(args=d['args'], attrs=d['attrs'], str=str(m))
+
+
+
+# ------------------------------------------------------------ namespaces
+def gval(v, T):
+    """a namespace value: str / None / anything else (by a short repr)"""
+    if isinstance(v, str):
+        return ['s', T.s(v)]
+    if v is None:
+        return ['n']
+    r = repr(v)
+    return ['o', T.s(r if len(r) <= 40 else r[:37] + '...')]
+
+
+def live_nodes(tb, T):
+    out = []
+    while tb is not None:
+        fr = tb.tb_frame
+        code = fr.f_code
+        g = [[T.s(k), gval(v, T)] for k, v in fr.f_globals.items()
+             if isinstance(k, str) and k.startswith('__') and k.endswith('__')]
+        loc = fr.f_locals
+        lo = [[T.s('__traceback_hide__'), gval(loc['__traceback_hide__'], T)]] \
+            if '__traceback_hide__' in loc else []
+        out.append([T.s(code.co_filename), T.s(code.co_name),
+                    tb.tb_lineno if tb.tb_lineno is not None else -2, g, lo])
+        tb = tb.tb_next
+    return out
+
+
+def standin_nodes(tb, T):
+    out = []
+    while tb is not None:
+        fr = tb.tb_frame
+        code = fr.f_code
+        g = [[T.s(k), gval(v, T)] for k, v in fr.f_globals.items()]
+        lo = [[T.s(k), gval(v, T)] for k, v in getattr(fr, 'f_locals', {}).items()]
+        out.append([T.s(code.co_filename), T.s(code.co_name),
+                    tb.tb_lineno if tb.tb_lineno is not None else -2, g, lo])
+        tb = tb.tb_next
+    return out
+
+
+def run_ns(c):
+    T = Tables()
+    try:
+        raise_through(c['pat'], make_exc(c['exc']))
+    except BaseException:
+        ei = sys.exc_info()
+        live = live_nodes(ei[2], T)
+        frames = frames_of(ei[2])
+        build_error = None
+        try:
+            e = ExceptionInfo()
+        except BaseException as exc:      # noqa
+            build_error = '%s: %s' % (type(exc).__name__, exc)
+        del ei
+    out = dict(reclimit=RECLIMIT_AT_IMPORT, dmf=einfo_mod.DEFAULT_MAX_FRAMES, live=live,
+               live_len=len(live), chains=[], error=None, fmt=None)
+    if build_error:
+        out['build_error'] = build_error
+        out['strs'] = T.strs
+        return out
+    out['text_names_raiser'] = names_raiser(e.traceback, frames)
+    try:
+        out['chains'].append(standin_nodes(e.tb, T))
+        for r in range(c['rounds']):
+            e = pickle.loads(pickle.dumps(e, c.get('proto', pickle.DEFAULT_PROTOCOL)))
+            out['chains'].append(standin_nodes(e.tb, T))
+        out['fmt'] = fmt_check(e, frames_of(e.tb))
+    except BaseException as exc:          # noqa
+        out['error'] = 'round %d: %s: %s' % (len(out['chains']), type(exc).__name__, exc)
+    out['strs'] = T.strs
+    return out
+
+
+def run_slots(c):
+    def public(o):
+        return sorted(a for a in dir(o) if not a.startswith('__'))
+    try:
+        raise_through([[4, 1], [10, 1], [11, 1]], ValueError('slots'))
+    except ValueError:
+        tb = sys.exc_info()[2]
+        frs, cos, tbs = None, None, None
+        while tb is not None:            # the names every node / frame / code object of the chain has
+            a, b, d = set(public(tb.tb_frame)), set(public(tb.tb_frame.f_code)), set(public(tb))
+            frs = a if frs is None else frs & a
+            cos = b if cos is None else cos & b
+            tbs = d if tbs is None else tbs & d
+            tb = tb.tb_next
+    return dict(frame=sorted(frs), code=sorted(cos), tb=sorted(tbs))
 
 
 # ------------------------------------------------------------ worker loop
@@ -485,7 +694,8 @@ def run_wl(c):
 
 
 def run_case(c):
-    return {'rt': run_rt, 'tb': run_tb, 'mee': run_mee, 'wl': run_wl}[c['kind']](c)
+    return {'rt': run_rt, 'tb': run_tb, 'mee': run_mee, 'wl': run_wl, 'ns': run_ns,
+            'slots': run_slots}[c['kind']](c)
 
 
 if __name__ == '__main__':
